@@ -30,6 +30,20 @@ NAMES = {
 PRELUDE_SYNC = r'''
 #![allow(unused, non_snake_case)]
 use join::*;
+// a quarter of the programs reaches its macro through a forwarding `macro_rules!` wrapper, as user crates do: the names the
+// caller writes (`let n1 = …`, captures) must keep meaning what they mean in a direct call
+macro_rules! fwd_join { ($($t:tt)*) => { join! { $($t)* } } }
+macro_rules! fwd_try_join { ($($t:tt)*) => { try_join! { $($t)* } } }
+macro_rules! fwd_join_spawn { ($($t:tt)*) => { join_spawn! { $($t)* } } }
+macro_rules! fwd_spawn { ($($t:tt)*) => { spawn! { $($t)* } } }
+macro_rules! fwd_try_join_spawn { ($($t:tt)*) => { try_join_spawn! { $($t)* } } }
+macro_rules! fwd_try_spawn { ($($t:tt)*) => { try_spawn! { $($t)* } } }
+macro_rules! fwd_join_async { ($($t:tt)*) => { join_async! { $($t)* } } }
+macro_rules! fwd_try_join_async { ($($t:tt)*) => { try_join_async! { $($t)* } } }
+macro_rules! fwd_join_async_spawn { ($($t:tt)*) => { join_async_spawn! { $($t)* } } }
+macro_rules! fwd_async_spawn { ($($t:tt)*) => { async_spawn! { $($t)* } } }
+macro_rules! fwd_try_join_async_spawn { ($($t:tt)*) => { try_join_async_spawn! { $($t)* } } }
+macro_rules! fwd_try_async_spawn { ($($t:tt)*) => { try_async_spawn! { $($t)* } } }
 use std::sync::Mutex;
 static LOG: Mutex<Vec<String>> = Mutex::new(Vec::new());
 pub fn log(s: String) {
@@ -300,8 +314,11 @@ class Prog:
                 items.append("hdp %d" % h["id"])
         return ";".join(items)
 
+    def invocation(self):
+        return "%s%s! { %s }" % ("fwd_" if getattr(self, "forwarded", False) else "", self.name, self.macro_input())
+
     def rust_fn(self):
-        inv = "%s! { %s }" % (self.name, self.macro_input())
+        inv = self.invocation()
         if self.is_async():
             run = "block_on(%s)" % inv
         else:
@@ -563,6 +580,8 @@ def run_programs(ctx, progs, crate="k2sync", with_async=False, prelude=PRELUDE_S
                 p.pid += "_u"
             elif i % 3 == 1:
                 p.pid += "_2"       # (sequential kinds too: a second execution must do exactly what the first did)
+        if i % 4 == 3 and not hasattr(p, "forwarded"):
+            p.forwarded = True      # invoked through a forwarding `macro_rules!` wrapper
     # structures through the real parser (also a K1 comparison of these inputs)
     cases = [(p.pid, p.kind, p.macro_input(), "k2") for p in progs]
     reals = k1.run_real(cases)
@@ -641,7 +660,7 @@ def report(ctx, results, signature_fn=None):
             n_impl += 1
             sig = signature_fn(p, impl) if signature_fn else None
             ctx.out.violation({
-                "macro": p.name, "macro_kind": p.kind, "source": p.macro_input(), "program": "%s! { %s }" % (p.name, p.macro_input()),
+                "macro": p.name, "macro_kind": p.kind, "source": p.macro_input(), "program": p.invocation(),
                 "world": p.world(), "observed": rust_line, "reference_semantics": spec_line, "problems": impl[:4],
                 "caller_thread": ("a thread without a name" if p.pid.endswith("_u") else
                                   "a thread named `main`, then the same call site again from a thread named `w2`" if p.pid.endswith("_2")
@@ -1105,6 +1124,9 @@ class ChainProg:
     def __init__(self, pid, name, chains):
         self.pid, self.name, self.chains = pid, name, chains
 
+    def invocation(self):
+        return "%s! { %s }" % (self.name, self.macro_input())
+
     def macro_input(self):
         return ", ".join(c.macro for c in self.chains)
 
@@ -1438,7 +1460,7 @@ def run_joiner_programs(ctx):
         if not s_res.startswith("panic") and jn != expect:
             problems.append("joiner applications (argument counts) %r, expected one per multi-branch step: %r" % (jn, expect))
         if problems:
-            ctx.out.violation({"macro": p.name, "macro_kind": p.kind, "program": "%s! { %s }" % (p.name, p.macro_input()),
+            ctx.out.violation({"macro": p.name, "macro_kind": p.kind, "program": p.invocation(),
                                "observed": rl[:1200], "problems": problems}, found_input=True, signature=None)
 
 
@@ -1475,7 +1497,7 @@ def run_nesting_programs(ctx):
         return
     for (p, verdict) in res:
         if not verdict.startswith("same"):
-            ctx.out.violation({"macro": p.name, "program": "%s! { %s }" % (p.name, p.macro_input()), "observed": verdict[:1200],
+            ctx.out.violation({"macro": p.name, "program": p.invocation(), "observed": verdict[:1200],
                                "what": "nesting macros changed the meaning of one of them"}, found_input=True, signature=None)
 
 
